@@ -91,7 +91,8 @@ Proof.
 Qed.
 
 Record qview (s s' : state) : Prop := {
-  qv_evs : s'.(evs) = s.(evs); qv_dws : s'.(dws) = s.(dws); qv_dbl : s'.(dbl) = s.(dbl); qv_toks : toks s' = toks s;
+  qv_evs : forall e, getev s' e = getev s e \/ ((getev s' e).(wakers) = [] /\ (getev s e).(wakers) = []);   (* fresh cells may be added *)
+  qv_dws : s'.(dws) = s.(dws); qv_dbl : s'.(dbl) = s.(dbl); qv_toks : toks s' = toks s;
   qv_np : forall P, (forall fr, P fr = true -> relv fr = true) -> np P s' = np P s;
   qv_exf : forall f, (forall fr, f fr = true -> relv fr = true) -> exf f s' = exf f s;
 }.
@@ -100,6 +101,23 @@ Lemma qview_intro s s' a old new :
   s'.(evs) = s.(evs) -> s'.(dws) = s.(dws) -> s'.(dbl) = s.(dbl) -> toks s' = toks s -> qview s s'.
 Proof.
   intros Ha Hs Hr H1 H2 H3 H4. split; try done.
+  - intros e. left. unfold getev. by rewrite H1.
+  - intros P HP. pose proof (np_upd P s s' a old new Ha Hs) as H.
+    rewrite <- (cntf_frelv P old HP), <- (cntf_frelv P new HP), Hr in H. lia.
+  - intros f Hf. unfold exf. rewrite Hs. apply (exf_insert f _ a old new Ha).
+    by rewrite <- (existsb_frelv f old Hf), <- (existsb_frelv f new Hf), Hr.
+Qed.
+
+Lemma qview_intro_alloc s s' a old new k :
+  stacks s !! a = Some old -> stacks s' = <[a := new]> (stacks s) -> frelv new = frelv old ->
+  s'.(evs) = s.(evs) ++ replicate k ev_new -> s'.(dws) = s.(dws) -> s'.(dbl) = s.(dbl) -> toks s' = toks s -> qview s s'.
+Proof.
+  intros Ha Hs Hr H1 H2 H3 H4. split; try done.
+  - intros e. unfold getev. rewrite H1. destruct (decide (e < length (evs s))).
+    + left. by rewrite lookup_app_l.
+    + right. rewrite (lookup_ge_None_2 (evs s)) by lia. split; [|done].
+      destruct ((evs s ++ replicate k ev_new) !! e) as [c|] eqn:E; [|done]. cbn.
+      rewrite lookup_app_r in E by lia. by apply lookup_replicate in E as [-> _].
   - intros P HP. pose proof (np_upd P s s' a old new Ha Hs) as H.
     rewrite <- (cntf_frelv P old HP), <- (cntf_frelv P new HP), Hr in H. lia.
   - intros f Hf. unfold exf. rewrite Hs. apply (exf_insert f _ a old new Ha).
@@ -108,10 +126,14 @@ Qed.
 
 Section Quiet.
   Context (s s' : state) (Q : qview s s').
-  Lemma q_getev e : getev s' e = getev s e. Proof. unfold getev. by rewrite (qv_evs _ _ Q). Qed.
+  Lemma q_getev e : getev s' e = getev s e \/ ((getev s' e).(wakers) = [] /\ (getev s e).(wakers) = []). Proof. apply (qv_evs _ _ Q). Qed.
   Lemma q_getdw d : getdw s' d = getdw s d. Proof. unfold getdw. by rewrite (qv_dws _ _ Q). Qed.
   Lemma q_getdbl k : getdbl s' k = getdbl s k. Proof. unfold getdbl. by rewrite (qv_dbl _ _ Q). Qed.
-  Lemma q_unfreg e w : unfreg s' e w = unfreg s e w. Proof. unfold unfreg. by rewrite q_getev. Qed.
+  Lemma q_unfreg e w : unfreg s' e w = unfreg s e w.
+  Proof.
+    unfold unfreg. destruct (q_getev e) as [->|[H1 H2]]; [done|]. rewrite H1, H2.
+    rewrite !bool_decide_false by (by intros ?%elem_of_nil). by rewrite !andb_false_r.
+  Qed.
   Lemma q_npwake w : np (is_wake w) s' = np (is_wake w) s. Proof. apply (qv_np _ _ Q). by intros []. Qed.
   Lemma q_npunpark c : np (is_unpark c) s' = np (is_unpark c) s. Proof. apply (qv_np _ _ Q). by intros []. Qed.
   Lemma q_nprq1 : np is_rq1 s' = np is_rq1 s. Proof. apply (qv_np _ _ Q). by intros []. Qed.
@@ -125,8 +147,9 @@ Section Quiet.
   Proof. destruct w; cbn; try done; [|unfold dbl_q; by rewrite q_getdbl]. rewrite q_getdw. destruct (getdw s d) as [[] [w|]]; try done. apply q_effw. Qed.
   Lemma q_cover e : cover s' e = cover s e.
   Proof.
-    unfold cover. rewrite q_getev. f_equal.
-    - f_equal. induction (wakers (getev s e)) as [|w l IH]; cbn; [done|]. by rewrite q_effq, IH.
+    unfold cover. f_equal.
+    - destruct (q_getev e) as [->|[H1 H2]]; [|rewrite H1, H2; cbn; by rewrite !andb_false_r].
+      f_equal. induction (wakers (getev s e)) as [|w l IH]; cbn; [done|]. by rewrite q_effq, IH.
     - rewrite (exf_ext (cfr s' e) (cfr s e)).
       + apply (qv_exf _ _ Q). by intros [].
       + intros []; cbn; try done; [by rewrite q_effw, q_gd|apply q_effq].
